@@ -26,6 +26,12 @@ CHECKS = {
         text='Every string up to length 4 (thorough: 5-6) over two 14-symbol shell alphabets through every pure stage in-process, every string up to length 3-4 through planning under three variable environments (incl. self-referential values), every sequence of up to 4 (5) block-keyword script lines through grammar and interpreter, and every string up to length 3 (4) executed by the real binary; oracle: no panic, no abort, no confirmed hang, next command still runs.',
         note='Alphabets and lengths are the bound; pty keystroke sequences are not covered; hang detection uses a time limit confirmed by an isolated re-run.',
         ref='DESIGN.md §4 C05'),
+    'C06': dict(
+        engine='E2 explicit-state BFS + E3 choice-prefix DFS over the real job-control code with a modelled kernel',
+        technique='explicit-state model checking of the real job-control code (BFS with canonical-state dedup over prompt-level states, stateless choice-prefix DFS over every hooked waitpid call), environment = kernel wait model bound to the real kernel by trace replay',
+        text='All interleavings of launches (fg/bg, 1..3 processes, non-ascending pids), stop/continue/exit/kill events delivered to a foreground wait or to the prompt poll, and fg/bg/jobs/empty-line actions are explored on the real Shell job table, wait_fg_job, try_wait_bg_jobs and handle_sigchld with waitpid answered by a kernel model, in the polling and in the SIGCHLD-handler configuration and with 0/1 deviations inside the non-blocking drain loop; quick completes event budget 3 with <= 4 processes (about 70 k states, 2.3 M transitions), thorough goes on to larger budgets with <= 6 processes. Oracles: smallest-unused unique job ids, wait returns exactly when every process of the job is reported dead or stopped with the last process status, the job list after `jobs` equals the live jobs with the right Stopped/Running state.',
+        note='Kernel model validated against the real kernel for prompt-level traces (69+ traces); fg/bg glue is mirrored, not executed (needs a terminal; see C07); the completed event bound is reported in the evidence.',
+        ref='DESIGN.md §4 C06, appendix B'),
     'C19': dict(
         engine='E1 bounded-exhaustive input sweep (in-process) + real binary',
         technique='bounded-exhaustive enumeration of all expression trees / all strings over the arithmetic alphabet against an exact reference evaluator (differential oracle, no sampling)',
